@@ -110,7 +110,7 @@ def _construct_regression_obj(X, y, bounds_X, bounds_y, epsilon, alpha, random_s
     n_features = X.shape[1]
     n_targets = y.shape[1]
 
-    local_epsilon = epsilon / (1 + n_targets * n_features + n_features * (n_features + 1) / 2)
+    local_epsilon = epsilon / (n_targets + n_targets * n_features + n_features * (n_features + 1) / 2)
     coefs = ((y ** 2).sum(axis=0), np.einsum('ij,ik->jk', X, y), np.einsum('ij,ik', X, X))
 
     del X, y
